@@ -155,3 +155,7 @@ def run(ck):
     from .. import refwrites
     ck.floor("SIB/ref-writes", refwrites.check(ck, P, "SIB/ref-writes", only={"deflate.c:fill_window", "deflate.c:lm_init", "deflate.c:lm_set_level", "deflate_fast.c:deflate_fast", "deflate_slow.c:deflate_slow", "deflate_medium.c:deflate_medium", "deflate_quick.c:deflate_quick", "deflate_rle.c:deflate_rle", "deflate_huff.c:deflate_huff", "deflate_stored.c:deflate_stored"}), 40)
     ck.assumptions += ["rustc const evaluation and MIR", "host target only"]
+
+# session 5 (round 9, D24)
+EXPLANATION = EXPLANATION + " " + (
+    'SIB/ref-conditions also holds local update pins (a working local the reference adjusts in place, `copy -= wnext`, keeps an in-place update under the same name in the same function) and update-count pins (a field updated in place at n >= 2 places of the reference keeps n such updates).')
